@@ -14,10 +14,13 @@ class Ctx:
         self.searching = False
 
         self.boost = 4 if lib.source_changed() else 1
+        # the cheap checks get a larger random budget in the quick tier (each stays well under a minute)
+        self.quick_mult = {'C01': 4, 'C02': 2, 'C03': 3, 'C04': 4, 'C05': 2, 'C06': 4, 'C08': 2, 'C09': 3, 'C10': 2,
+                           'C12': 3, 'C15': 3, 'C17': 3, 'C18': 4, 'C20': 2}.get(prop, 1)
 
     def scale(self, quick, thorough=None):
         # the source differs from the tree the model was validated against: search harder
-        return (thorough if thorough is not None else quick * 10) if self.thorough else quick * self.boost
+        return (thorough if thorough is not None else quick * 10) * 4 if self.thorough else quick * self.boost * self.quick_mult
 
 
 class Report:
@@ -1563,7 +1566,7 @@ def run_c18(ctx):
                     panic = True
                     break
         cases.append('WROPS\t[%s]' % ','.join(ops)); tags.append('writer_ops')
-        exp.append('PANIC' if panic else '%s [%s]' % (bytes(buf).hex(), ','.join(obs)))
+        exp.append('PANIC %s' % bytes(buf).hex() if panic else '%s [%s]' % (bytes(buf).hex(), ','.join(obs)))
     res = run_compare(ctx, rep, cases, tags, lambda c, r: r, nontrivial=lambda c, m: True)
     for w in IMPLS:
         for c, e, r in zip(cases, exp, res[w]):
@@ -1604,6 +1607,20 @@ def source_scan():
     return hits
 
 
+def env_vars_read():
+    """names of environment variables the library source reads (targets for the purity search)"""
+    import re
+    names = set()
+    src = os.path.join(lib.REPO, 'src')
+    for d, _, fs in os.walk(src):
+        for f in fs:
+            if f.endswith('.rs'):
+                txt = open(os.path.join(d, f), errors='replace').read()
+                names.update(re.findall(r'var(?:_os)?\(\s*"([^"]+)"', txt))
+                names.update(re.findall(r'option_env!\(\s*"([^"]+)"', txt))
+    return sorted(names)
+
+
 def pure_workload(ctx, n):
     rng = ctx.rng
     cases = []
@@ -1618,6 +1635,15 @@ def pure_workload(ctx, n):
         a = hide_args(rng)
         cases.append('HIDE\t%s\t%s\t%s\t%s\t%s' % (rand_avp(rng, allow_hidden=False, maxpay=60), a[0].hex(), a[1].hex(), a[2].hex(), a[3].hex()))
         cases.append('REVEAL\tHidden(7,%s)\t%s\t%s' % (rbytes(rng, 32).hex(), a[0].hex(), a[1].hex()))
+    # hidden state keyed on part of the arguments would show between calls that share that part
+    s0, rv0 = b'shared-secret', b'\x01\x02\x03\x04'
+    for k in rng.sample(KIND_LIST, 12):
+        a = hide_args(rng)
+        cases.append('HIDE\t%s\t%s\t%s\t%s\t%s' % (rand_avp(rng, k, maxpay=40), s0.hex(), rv0.hex(), a[2].hex(), a[3].hex()))
+        vp = valid_payload(rng, KINDS[k][0]) or b''
+        plain = be(6 + len(vp), 2) + vp
+        plain += bytes((16 - len(plain) % 16) % 16)
+        cases.append('REVEAL\tHidden(%d,%s)\t%s\t%s' % (KINDS[k][0], ref_encrypt_plain(KINDS[k][0], plain, s0, rv0).hex(), s0.hex(), rv0.hex()))
     return cases
 
 
@@ -1684,6 +1710,29 @@ def run_c19(ctx):
                 rep.fail('a call returned a different result when repeated in a different order', case=cases[i], executor=w, got=r2[k][:300], first=seq[i][:300])
         if len(rep.samples) < 4:
             rep.samples.append({'case': cases[0][:200], 'implementation': seq[0][:200], 'threads': nthreads, 'rounds': rounds})
+    # environment the library reads: run the workload once with each such variable set
+    evs = env_vars_read()
+    rep.notes['environment_variables_read_by_the_library'] = evs
+    for name in evs[:8]:
+        for w in IMPLS:
+            outp = os.path.join(wd, 'pure.env.out')
+            env = dict(os.environ)
+            env[name] = '1'
+            p = subprocess.run([ctx.runner.bins[w], '--out', outp], stdin=open(inp), stdout=subprocess.PIPE,
+                               stderr=subprocess.PIPE, timeout=600, env=env)
+            rep.evaluations += len(cases)
+            if p.stdout or p.stderr:
+                rep.fail('with the environment variable %s set, the library wrote %d octets to stdout and %d to stderr'
+                         % (name, len(p.stdout), len(p.stderr)), case=cases[0], executor=w, environment={name: '1'},
+                         stderr=p.stderr[:200].decode(errors='replace'), stdout=p.stdout[:200].decode(errors='replace'))
+            else:
+                got = open(outp).read().split('\n')[:len(cases)]
+                base = open(os.path.join(wd, 'pure.%s.out' % w)).read().split('\n')[:len(cases)]
+                for i, (x, y) in enumerate(zip(got, base)):
+                    if x != y:
+                        rep.fail('a result depends on the environment variable %s' % name, case=cases[i], executor=w,
+                                 environment={name: '1'}, got=x[:300], without=y[:300])
+                        break
     for k in ('DEC', 'AVPS', 'ENC', 'ENCA', 'HIDE', 'REVEAL'):
         rep.dist[k] = sum(1 for c in cases if c.startswith(k + '\t'))
     rep.notes['rule'] = ('a decode/encode/hide/reveal workload run (a) in a worker whose fds 1/2 are pipes and which itself prints nothing, (b) sequentially, then from 16 '
